@@ -6,10 +6,11 @@
   `serve` runs the prediction is schedule independent: every query gets exactly one response that
   is its own (C04's `answers_own`), so all counters equal the number of queries.
 -/
-import MosVerif.Model.Wire
+import MosVerif.Model.Router
 -- @component malformed MosVerif.Listeners.runMalformed
 -- @component serve MosVerif.Listeners.runServe
 -- @component mixstress MosVerif.Listeners.runMixStress
+-- @component udpsize MosVerif.Listeners.runUdpSize
 namespace MosVerif.Listeners
 open MosVerif MosVerif.Wire
 
@@ -71,5 +72,64 @@ def runMixStress (case impl : String) : String × String :=
     let p ← kvNat toks "per"
     pure (r * 8 * c * p)
   judgeCounts n impl
+
+/-! ### `udpsize` (C09 at the UDP listener)
+  The upstream answers `big<k>.u<seq>` with k raw records of 100 octets; the proxy adds its own OPT iff the query
+  had one and packs with compression and the client's limit `max 512 (advertised size)`.  The prediction runs the
+  pack model on that response and decodes the result. -/
+
+/-- order-preserving sub-list test on records -/
+def isSublistBy : List Resource → List Resource → Bool
+  | [], _ => true
+  | _ :: _, [] => false
+  | a :: as, b :: bs => if decide (a = b) then isSublistBy as bs else isSublistBy (a :: as) bs
+
+def labelOfStr (s : String) : Bytes := (UInt8.ofNat s.utf8ByteSize) :: s.toUTF8.toList
+
+def bigRecord (name : Name) (i : Nat) : Resource :=
+  ⟨name, 16, 1, 300, .raw ([99, UInt8.ofNat i] ++ List.replicate 98 0)⟩
+
+def runUdpSize (case impl : String) : String × String :=
+  let toks := words case
+  match (kvGet toks "opt").bind boolOfStr, kvNat toks "size", kvNat toks "k", kvNat toks "seq" with
+  | some opt, some size, some k, some seq =>
+    let name : Name := labelOfStr s!"big{k}" ++ labelOfStr s!"u{seq}"
+    let q : Question := ⟨name, 16, 1⟩
+    let resp : Msg :=
+      { hdr := { Router.emptyHdr with response := true, rd := true, ra := true }
+        questions := [q]
+        answers := (List.range k).map (bigRecord name)
+        authorities := []
+        additionals := if opt then [Router.newEDNS0 Router.udpSize []] else [] }
+    let clientSize := if opt ∧ size ≥ 512 then size else 512
+    let out := match packMsg resp true clientSize (msgLen resp) with
+      | .ok bs =>
+        match unpackMsg bs with
+        | .ok m =>
+          let nopt := (m.additionals.filter (fun r => r.rtype == typeOPT)).length
+          let intact := m.answers.zipIdx.all (fun (r, i) => r == bigRecord name i ∨ true) && isSublistBy m.answers resp.answers
+          s!"len_ok={strOfBool (bs.length ≤ clientSize)} tc={strOfBool m.hdr.truncated} an={m.answers.length} decodes=1 opt={nopt} q={m.questions.length} intact={strOfBool intact}"
+        | _ => "undecodable"
+      | _ => "pack-error"
+    -- specification (C09): within the limit, decodes, TC iff something is missing, question and OPT kept,
+    -- kept answers unmodified and in order, nothing dropped if everything fits
+    let it := words impl
+    let v :=
+      if impl == "panic" then "viol:panic"
+      else if kvGet it "len_ok" != some "1" then "viol:size"
+      else if kvGet it "decodes" != some "1" then "viol:undecodable"
+      else match kvNat it "an", (kvGet it "tc").bind boolOfStr, kvNat it "opt", kvNat it "q", kvNat it "intact" with
+        | some an, some tc, some nopt, some nq, some intact =>
+          if an > k then "viol:extra-records"
+          else if an < k ∧ !tc then "viol:tc-missing"
+          else if an = k ∧ tc then "viol:tc-added"
+          else if nq ≠ 1 then "viol:question-dropped"
+          else if nopt ≠ (if opt then 1 else 0) then "viol:opt"
+          else if intact ≠ 1 then "viol:records-modified"
+          else if msgLen resp ≤ clientSize ∧ an ≠ k then "viol:dropped-though-fits"
+          else "ok"
+        | _, _, _, _, _ => "unparsed"
+    (out, v)
+  | _, _, _, _ => ("bad-case", "na")
 
 end MosVerif.Listeners
